@@ -331,6 +331,6 @@ Theorem radix_roundtrip_ctor_directive o s f n t form :
   format_value o (VInt n) (FStr s) = Some (OText t) ->
   int_ctor form (trim_space t) (radix_of (f_char f)) None = Some n.
 Proof.
-  intros Hp Hn Hc H0 H. rewrite (format_value_scalar o (VInt n) s f eq_refl eq_refl Hp) in H.
+  intros Hp Hn Hc H0 H. rewrite (format_value_scalar o (VInt n) s f eq_refl Hp) in H.
   injection H as H. exact (radix_roundtrip_ctor o f n t form None Hn Hc H0 H).
 Qed.
